@@ -681,11 +681,12 @@ fn stream_cases(ctx: &Ctx, stats: &mut Stats, rng: &mut Rng, n: u64) {
 // ------------------------------------------------------------------ entry points
 
 fn run(ctx: &Ctx) -> Stats {
-    let threads = if ctx.quick() { 1 } else { ctx.threads };
+    // quick: the same total workload, spread over a few threads so that it stays short on a loaded machine
+    let threads = if ctx.quick() { ctx.threads.min(6) } else { ctx.threads };
     let t = threads.max(1) as u64;
-    let n_mut = ctx.size(120_000, 72_000_000 / t);
-    let n_rand = ctx.size(40_000, 18_000_000 / t);
-    let n_stream = ctx.size(4_000, 1_200_000 / t);
+    let n_mut = ctx.size(120_000 / t, 72_000_000 / t);
+    let n_rand = ctx.size(40_000 / t, 18_000_000 / t);
+    let n_stream = ctx.size(4_000 / t, 1_200_000 / t);
     sharded(ctx, threads, |shard, seed| {
         let mut stats = Stats::default();
         let mut rng = Rng::new(seed);
